@@ -224,6 +224,13 @@ class Spec:
                           z3.Implies(z3.Length(b.t) == 0, rv(b.t) == b.t)]
             return S.V(S.BOOL, z3.And(*facts))
 
+        def attr(v, name):
+            """The attribute `name` of an opaque value, as the engine reads it (a function of the value)."""
+            from .expr import attr_func
+            key = "%s.%s" % (getattr(v.s, "oname", v.s.name), name)
+            rs = sp.attr_sorts.get(key) or sp.attr_sorts.get("*." + name) or S.ANY
+            return S.V(rs, attr_func(name, v.s, rs)(v.t))
+
         def seq_lemma(name, sort, stmt):
             l = SeqLemma(name, sort, stmt)
             sp.seq_lemmas.append(l)
@@ -278,7 +285,7 @@ class Spec:
             return fn
 
         ns = dict(cls=cls, ghost=ghost, assumed=assumed, verified=verified, target=target, loop=loop,
-                  fold_sum=fold_sum, fold_all=fold_all, fold_cat=fold_cat, use_rev=use_rev, fold_unit=fold_unit, rev_hints=rev_hints, seq_lemma=seq_lemma, lemma=lemma,
+                  fold_sum=fold_sum, fold_all=fold_all, fold_cat=fold_cat, use_rev=use_rev, fold_unit=fold_unit, rev_hints=rev_hints, attr=attr, seq_lemma=seq_lemma, lemma=lemma,
                   exceptions=exceptions, attr_sort=attr_sort, const=const, assume_note=assume_note,
                   undecided=undecided, pure=pure, ufunc=ufunc, forall=forall, exists=exists,
                   extra_check=extra_check, rx=re.compile, SPEC=sp)
